@@ -420,6 +420,15 @@ def run(check, an: Analysis):
     c04.check_task_close(check, an, 'abort')
     from . import c08
     c08.check_subscription_paired(check, an, 'abort')
+    # an aborted activity may hold a lock (or read from a Queue, which takes one): being
+    # closed from outside must not trip the lock's ownership assertion
+    from . import c09
+    c09.check_forced_close_tolerated(check, an, 'abort')
+    # a cancellation of the caller that loses the race against completion is disarmed
+    from . import c03
+    from ..paths import CANCEL_TASK
+    c03._check_signal_lifecycles(check, an, _scope.wrapper_callee(an), rule='abort',
+                                 only=lambda fn, cls: cls == CANCEL_TASK)
     # aborting the rest: closing children iterates copies (a closed child removes itself)
     for name in ('_close_children', '_close_volatile'):
         fn = an.method(SCOPE, name)
